@@ -76,6 +76,14 @@ def main():
     if not args and '--write' in sys.argv:
         with open(os.path.join(TW, 'RESULTS.json'), 'w') as f:
             json.dump(out, f, indent=1, sort_keys=True)
+    elif args and '--merge' in sys.argv:
+        # add / replace the entries of the named twins only (the others keep the verdicts of the last full run)
+        rp = os.path.join(TW, 'RESULTS.json')
+        cur = json.load(open(rp)) if os.path.exists(rp) else {}
+        for t in tw:
+            cur[t] = out.get(t, {})
+        with open(rp, 'w') as f:
+            json.dump(cur, f, indent=1, sort_keys=True)
 
 
 if __name__ == '__main__':
